@@ -73,15 +73,20 @@ HARNESS = r"""
  * points-to sets are known; everything else (contents, ghosts, scalars) is nondet. */
 #include <stdlib.h>
 #define VF_CANARY() __CPROVER_assert(0, "vf_canary: end of harness reachable")
+#ifdef VF_TYPED_OBJECTS
+#define VF_ZERO 0
+#else
 static const size_t vf_zero = 0;
+#define VF_ZERO vf_zero
+#endif
 static VF_MGR_T *vf_setup(void)
 {
         /* "^ vf_zero" strips CBMC's sizeof type annotation: the objects are untyped byte
          * arrays (as with __CPROVER_is_fresh), which keeps symex from expanding every
          * byte-level havoc field by field */
-        VF_MGR_T *mgr = malloc(sizeof(*mgr) ^ vf_zero);
-        g_A = malloc(sizeof(*g_A) ^ vf_zero);
-        g_B = malloc(sizeof(*g_B) ^ vf_zero);
+        VF_MGR_T *mgr = malloc(sizeof(*mgr) ^ VF_ZERO);
+        g_A = malloc(sizeof(*g_A) ^ VF_ZERO);
+        g_B = malloc(sizeof(*g_B) ^ VF_ZERO);
         g_bufA = malloc(g_lenA);
         g_bufB = malloc(g_lenB);
         __CPROVER_assume(mgr && g_A && g_B && g_bufA && g_bufB);
